@@ -222,4 +222,16 @@ prop("C11",
      bounds={"quick": "N=2 hostile lines; lifecycle depth 7", "thorough": "N=3 hostile lines; lifecycle depth 9"},
      runs=[dict(name="h_confsafe", sources=["harness/h_confsafe.c"], profile="asan", exclude=["conf.c"], wraps=_CONFWRAPS, args={"quick": ["--N=2", "--depth=7"], "thorough": ["--N=3", "--depth=9"]})],
      deadline={"quick": 240, "thorough": 3000})
+
+
+prop("C16",
+     level="exploration",
+     technique="exhaustive walk of the finite (entry point x guarded pointer parameter x runtime debug level) matrix generated from the source's own guards (union with a pinned table), each cell in a forked child so the fatal-error path is observable",
+     rule="tools/gen_nullmatrix.py parses every definition in the anchored files (and the class-table methods of the three container classes) and its ASSERT/REQUIRE/COMP_CHECK_NULL guards; every (function, guarded parameter) row of the union "
+          "of the pinned and the freshly generated table is called with that parameter NULL and the others valid at runtime levels 0, 1 and 3: level 0 must return the stated failure value, leave the other arguments and the heap unchanged; "
+          "level >= 1 may instead exit through the fatal-error path with its diagnostic (ASSERT guards only); never a signal; non-trivial = every cell",
+     bounds={"quick": "full matrix (~430 rows x 3 levels)", "thorough": "same: the matrix is finite and walked completely in both tiers"},
+     assumptions=["pthreads.c and module.c entry points are outside the anchored scope", "DEBUG=4 build (the configured default)"],
+     runs=[dict(name="h_null", sources=["harness/h_null.c"], gen="nullmatrix", profile="asan", exclude=["array.c", "linked_list.c", "dlinked_list.c"], args={})],
+     deadline={"quick": 240, "thorough": 1200})
 NOT_CLAIMED = {}
